@@ -102,6 +102,10 @@ type Verdict struct {
 	// Volatile marks messages that quote measured quantities (heap sizes); the determinism guard
 	// then compares signatures only.
 	Volatile bool
+	// Poison marks a verdict after which this process must not be trusted to run further
+	// executions (a goroutine of the code under test is still spinning): the worker stops and
+	// is replaced; determinism replays are skipped.
+	Poison bool
 	Detail any
 }
 
@@ -152,6 +156,7 @@ type Stats struct {
 }
 
 type explorer struct {
+	poisoned atomic.Bool
 	body   Body
 	opt    Options
 	sem    chan struct{}
@@ -216,6 +221,10 @@ func RunOne(body Body, choices []int) (*Ctx, *Verdict) {
 var slowMS = func() int64 { n, _ := strconv.Atoi(os.Getenv("VERIF_SLOW_MS")); return int64(n) }()
 
 func (e *explorer) explore(prefix []int, costSoFar int) {
+	if e.poisoned.Load() {
+		e.capped.Store(true)
+		return
+	}
 	c := &Ctx{prefix: prefix}
 	t0 := time.Now()
 	v := e.body(c)
@@ -314,6 +323,10 @@ func (e *explorer) record(c *Ctx, v *Verdict) {
 	}
 	viol := Violation{Choices: c.Choices(), Kinds: kinds, Msg: v.Msg, Sig: v.Sig, Detail: v.Detail}
 	e.st.Details = append(e.st.Details, viol)
+	if v.Poison {
+		e.poisoned.Store(true)
+		return
+	}
 	// determinism guard: the same choice vector must give the same verdict every time.
 	e.mu.Unlock()
 	for r := 0; r < e.opt.Replays; r++ {
